@@ -30,7 +30,22 @@ class Params(dict):
     __getattr__ = dict.__getitem__
 
 # ------------------------------------------------------------------------------------------------ load_timestamp
+DSFILES = ('timestamp.json', 'snapshot.json', 'targets.json')
+DOCMK = {}
+def ds_slots(pfx):
+    """symbolic pre-state of the three trust files: (present, parses, doc id)"""
+    out = {}
+    for f in DSFILES:
+        n = f.split('.')[0]
+        out[f] = (z3.Bool(f'{pfx}_ds_{n}_present'), z3.Bool(f'{pfx}_ds_{n}_parses'), z3.BitVec(f'{pfx}_ds_{n}_id', 8))
+    return out
+
 def ts_params(nchunks=1, pfx='p'):
+    P = _ts_params(nchunks, pfx)
+    P['ds'] = ds_slots(pfx)
+    P['old_present'], P['old_parses'], P['old'] = P['ds']['timestamp.json']
+    return P
+def _ts_params(nchunks=1, pfx='p'):
     P = Params(root=z3.BitVec(f'{pfx}_root', 8), served=z3.BitVec(f'{pfx}_ts_served', 8), old=z3.BitVec(f'{pfx}_ts_old', 8),
                old_present=z3.Bool(f'{pfx}_ts_old_present'), old_parses=z3.Bool(f'{pfx}_ts_old_parses'), served_parses=z3.Bool(f'{pfx}_ts_served_parses'),
                fetch_err=z3.Bool(f'{pfx}_ts_fetch_err'), fetch_err_kind=z3.BitVec(f'{pfx}_ts_fetch_err_kind', 64), chunk_err_kind=z3.BitVec(f'{pfx}_ts_chunk_err_kind', 64),
@@ -46,6 +61,9 @@ def kinds_ok(P):
 def base_state(P, io_faults=False):
     st = State()
     st.env['fs'] = {'/ds/latest_known_time.json': (P.lkt_present, Obj('file', name='lkt', parsed=P.lkt, parses=P.lkt_parses))}
+    mk = {'timestamp.json': timestamp_doc, 'snapshot.json': snapshot_doc, 'targets.json': targets_doc}
+    for f, (pres, prs, did) in P.ds.items():
+        st.env['fs']['/ds/' + f] = stored_file('stored_' + f, mk[f](did), pres, prs)
     st.env['io_faults'] = io_faults
     st.env['url_join_fails'] = P.get('join_fails')
     st.pc += kinds_ok(P)
@@ -53,7 +71,6 @@ def base_state(P, io_faults=False):
 
 def summarize_load_timestamp(I, P, io_faults=False):
     st = base_state(P, io_faults)
-    st.env['fs']['/ds/timestamp.json'] = stored_file('old_ts', timestamp_doc(P.old), P.old_present, P.old_parses)
     st.env['served'] = lambda st_, url, ty: (P.served_parses, timestamp_doc(P.served))
     st.env['transport'] = lambda st_, key: {'fetch_err': P.fetch_err, 'fetch_err_kind': P.fetch_err_kind, 'chunks': P.chunks, 'chunk_err_kind': P.chunk_err_kind}
     ds = mk_datastore(st); root = st.alloc(root_doc(P.root)); base = base_url(st)
@@ -64,14 +81,13 @@ def summarize_load_timestamp(I, P, io_faults=False):
 # ------------------------------------------------------------------------------------------------ load_snapshot
 def sn_params(nchunks=1, pfx='p'):
     P = ts_params(nchunks, pfx)
-    P.update(ts=z3.BitVec(f'{pfx}_ts', 8), served=z3.BitVec(f'{pfx}_sn_served', 8), old=z3.BitVec(f'{pfx}_sn_old', 8),
-             old_present=z3.Bool(f'{pfx}_sn_old_present'), old_parses=z3.Bool(f'{pfx}_sn_old_parses'), served_parses=z3.Bool(f'{pfx}_sn_served_parses'),
+    P['old_present'], P['old_parses'], P['old'] = P['ds']['snapshot.json']
+    P.update(ts=z3.BitVec(f'{pfx}_ts', 8), served=z3.BitVec(f'{pfx}_sn_served', 8), served_parses=z3.Bool(f'{pfx}_sn_served_parses'),
              fetch_err=z3.Bool(f'{pfx}_sn_fetch_err'), maxsz=z3.BitVec(f'{pfx}_max_snapshot_size', 64), chunks=sym_chunks(f'{pfx}_sn', nchunks))
     return P
 
 def summarize_load_snapshot(I, P, io_faults=False):
     st = base_state(P, io_faults)
-    st.env['fs']['/ds/snapshot.json'] = stored_file('old_sn', snapshot_doc(P.old), P.old_present, P.old_parses)
     st.env['served'] = lambda st_, url, ty: (P.served_parses, snapshot_doc(P.served))
     st.env['transport'] = lambda st_, key: {'fetch_err': P.fetch_err, 'fetch_err_kind': P.fetch_err_kind, 'chunks': P.chunks, 'chunk_err_kind': P.chunk_err_kind}
     ds = mk_datastore(st); root = st.alloc(root_doc(P.root)); base = base_url(st); ts = st.alloc(timestamp_doc(P.ts))
@@ -82,8 +98,8 @@ def summarize_load_snapshot(I, P, io_faults=False):
 # ------------------------------------------------------------------------------------------------ load_targets (top level; delegations opaque)
 def tg_params(nchunks=1, pfx='p'):
     P = ts_params(nchunks, pfx)
-    P.update(sn=z3.BitVec(f'{pfx}_sn', 8), served=z3.BitVec(f'{pfx}_tg_served', 8), old=z3.BitVec(f'{pfx}_tg_old', 8),
-             old_present=z3.Bool(f'{pfx}_tg_old_present'), old_parses=z3.Bool(f'{pfx}_tg_old_parses'), served_parses=z3.Bool(f'{pfx}_tg_served_parses'),
+    P['old_present'], P['old_parses'], P['old'] = P['ds']['targets.json']
+    P.update(sn=z3.BitVec(f'{pfx}_sn', 8), served=z3.BitVec(f'{pfx}_tg_served', 8), served_parses=z3.Bool(f'{pfx}_tg_served_parses'),
              fetch_err=z3.Bool(f'{pfx}_tg_fetch_err'), maxsz=z3.BitVec(f'{pfx}_max_targets_size', 64), chunks=sym_chunks(f'{pfx}_tg', nchunks),
              deleg_ok=z3.Bool(f'{pfx}_deleg_ok'))
     return P
@@ -102,7 +118,6 @@ def m_validate_oracle(I, st, fr, callee, args, dty, dest, ret_bb):
 def summarize_load_targets(I, P, io_faults=False, no_deleg=False):
     st = base_state(P, io_faults)
     if no_deleg: st.pc += [z3.Not(HasDeleg(P.served)), Validates(P.served)]
-    st.env['fs']['/ds/targets.json'] = stored_file('old_tg', targets_doc(P.old), P.old_present, P.old_parses)
     st.env['served'] = lambda st_, url, ty: (P.served_parses, targets_doc(P.served))
     st.env['transport'] = lambda st_, key: {'fetch_err': P.fetch_err, 'fetch_err_kind': P.fetch_err_kind, 'chunks': P.chunks, 'chunk_err_kind': P.chunk_err_kind}
     st.env['deleg_ok'] = P.deleg_ok
@@ -123,9 +138,8 @@ def root_params(hops=1, nchunks=1, pfx='p'):
              hop=[z3.BitVec(f'{pfx}_hop{i}', 8) for i in range(hops)], hop_parses=[z3.Bool(f'{pfx}_hop{i}_parses') for i in range(hops)],
              hop_fetch_err=[z3.Bool(f'{pfx}_hop{i}_fetch_err') for i in range(hops + 1)],
              hop_chunks=[sym_chunks(f'{pfx}_hop{i}', nchunks) for i in range(hops + 1)],
-             maxsz=z3.BitVec(f'{pfx}_max_root_size', 64), max_updates=z3.BitVec(f'{pfx}_max_root_updates', 64),
-             ts_present=z3.Bool(f'{pfx}_ts_present'), sn_present=z3.Bool(f'{pfx}_sn_present'),
-             ts_old=z3.BitVec(f'{pfx}_ts_old', 8), sn_old=z3.BitVec(f'{pfx}_sn_old', 8))
+             maxsz=z3.BitVec(f'{pfx}_max_root_size', 64), max_updates=z3.BitVec(f'{pfx}_max_root_updates', 64))
+    P['ts_present'] = P['ds']['timestamp.json'][0]; P['sn_present'] = P['ds']['snapshot.json'][0]
     return P
 
 def summarize_load_root(I, P, klens=((1, 1),), io_faults=False, last_probe_available=False):
@@ -136,8 +150,6 @@ def summarize_load_root(I, P, klens=((1, 1),), io_faults=False, last_probe_avail
     kl = list(klens) + [klens[-1]] * (hops + 1 - len(klens))
     st = base_state(P, io_faults)
     st.env['shipped'] = (P.shipped_parses, root_doc(P.shipped, kl[0]))
-    st.env['fs']['/ds/timestamp.json'] = (P.ts_present, Obj('file', name='old_ts', parsed=timestamp_doc(P.ts_old), parses=z3.Bool('p_ts_old_parses')))
-    st.env['fs']['/ds/snapshot.json'] = (P.sn_present, Obj('file', name='old_sn', parsed=snapshot_doc(P.sn_old), parses=z3.Bool('p_sn_old_parses')))
     def nfetch(st_): return sum(1 for e in st_.events if e[0] == 'fetch')
     def transport(st_, key):
         n = nfetch(st_)
